@@ -167,13 +167,15 @@ PROPS = {
     },
     "C10": {
         "module": "MF.Props.C10",
-        "theorems": ["MF.Props.C10.recovery_step_total", "MF.Props.C10.recovery_step_frame", "MF.Props.C10.recovery_progress",
+        "module_extra": ["MF.Props.C10Handlers"],
+        "theorems": ["MF.Props.C10.handlers_translated", "MF.Props.C10.handler_frames", "MF.Props.C10.action_is_go", "MF.Props.C10.skipLoop_is_go", "MF.Props.C10.handler_is_go",
+                     "MF.Props.C10.recovery_step_total", "MF.Props.C10.recovery_step_frame", "MF.Props.C10.recovery_progress",
                      "MF.Props.C10.noPanic_agrees", "MF.Props.C10.recovery_enumerates", "MF.Props.C10.bad_tokens_exact",
                      "MF.Props.C10.bad_tokens_clean", "MF.Props.C10.split_gt", "MF.Props.C10.restored_inv", "MF.Props.C10.bad_sql_shape", "MF.Props.C10.bad_sql_slice_partial"],
         "channels": ["LEX", "HANDLER"],
         "pred": True,
         "level": "proof",
-        "trusted_base": M0_TRUST + ["the four recovery handlers are modelled by hand (lean/MF/Model/Handlers.lean) and tied to parser.go by the HANDLER channel through the hook memefish.VerifRecover (export_verif.go)"],
+        "trusted_base": M0_TRUST + ["translator tools/extract/handlers.go (go/ast, purely syntactic): the `switch p.Token.Kind` of each of the four handlers is TRANSLATED on every run into the statement language of lean/MF/Model/HandlerLang.lean (lean/MF/Gen/HandlersGo.lean), the frame of each skip loop is matched against the one known shape; `action_is_go` proves the hand-written Handlers.action equal to the interpretation of the translated switches for every nesting value and token kind", "the four recovery handlers are modelled by hand (lean/MF/Model/Handlers.lean) and tied to parser.go by the HANDLER channel through the hook memefish.VerifRecover (export_verif.go)"],
         "assumptions": ["proved: the two lexer modes agree on clean text; every handler, from every lexer state satisfying the lexer invariant, terminates and returns exactly the recovery-mode token stream up to the first stop token with NodePos/NodeEnd as claimed, incl. the '>>' split; BadNode.SQL() keeps exactly the gaps of the input (bad_sql_shape). NOT proved: that the slice input[NodePos:NodeEnd] and SQL() lexed ON THEIR OWN give the same tokens — false at a context-dependent cut (known finding site:BadNode.sliceContext); the predicate evaluates that clause on the implementation for every BadNode of every explored tree (partial)",
                         "that the parse functions call the handlers only with lexer states produced by the lexer is a fact about parser.go checked by the predicate (every BadNode of real parses), not proved"],
     },
